@@ -416,6 +416,7 @@ namespace sim
     static void h_yield(runtime& rt, int site)
     {
         if (site == verif::cas_start) { g->vm_of(rt)->run_start_ns = g->clock_ns; }
+        if (g->obs_sites) g->ev({ "y", tl_thread, g->vm_of(rt)->id, site, g->instr });
         g->probes["site" + std::to_string(site)]++;
         thread_yield(site);
     }
@@ -573,10 +574,18 @@ namespace sim
         g->ev({ "load", vm->id, "ok", g->ctx_id(rt, ctx.get()), (uint64_t)set->size() });
     }
 
+    static int64_t live_contexts(runtime& rt)
+    {
+        int64_t n = 0;
+        for (auto it = rt.context_begin(); it != rt.context_end(); ++it) if (!(*it)->empty()) n++;
+        return n;
+    }
     static void do_action(VM* vm, const std::string& name, int thread)
     {
         auto& rt = *vm->rt;
-        g->ev({ "act_begin", thread, vm->id, name, (int)rt.runtime_state(), (uint64_t)(rt.context_end() - rt.context_begin()), g->instr, g->clock_ns });
+        auto act0 = rt.context_active_as_shared();
+        g->ev({ "act_begin", thread, vm->id, name, (int)rt.runtime_state(), (uint64_t)(rt.context_end() - rt.context_begin()), g->instr, g->clock_ns,
+            act0 ? (int64_t)act0->frames_size() : (int64_t)-1 });
         fprintf(stderr, "@action %s\n", name.c_str());
         int res;
         std::string exc;
@@ -596,7 +605,8 @@ namespace sim
         }
         vm->last_result = res;
         g->ev({ "act", thread, vm->id, name, res, (int)rt.runtime_state(), (uint64_t)(rt.context_end() - rt.context_begin()),
-            rt.__runtime_error() ? 1 : 0, (uint64_t)rt.log_messages.size(), g->instr, g->clock_ns, exc });
+            rt.__runtime_error() ? 1 : 0, (uint64_t)rt.log_messages.size(), g->instr, g->clock_ns, exc,
+            rt.context_active_as_shared() ? (int64_t)rt.context_active_as_shared()->frames_size() : (int64_t)-1, live_contexts(rt) });
     }
 
     static void run_steps(const json& steps, int thread);
@@ -752,6 +762,7 @@ namespace sim
             g->obs_stack = o.value("stack", false);
             g->obs_visits = o.value("visits", true);
             g->obs_slices = o.value("slices", true);
+            g->obs_sites = o.value("sites", false);
             if (o.contains("ops")) for (auto& x : o["ops"]) g->obs_ops.insert(x.get<std::string>());
         }
         if (p.contains("rand_seed")) g->rand_state = p["rand_seed"].get<uint64_t>() * 2 + 1;
